@@ -12,12 +12,14 @@ mod c12;
 mod c14;
 mod c17;
 mod c18;
+mod c19;
 mod c20;
 mod c21;
 mod c22;
 mod c23;
 mod c24;
 mod c25;
+mod c26;
 mod c27;
 mod c28;
 mod c29;
@@ -27,6 +29,8 @@ mod c32;
 mod c33;
 mod c35;
 mod c37;
+mod c40;
+mod c41;
 mod c42;
 mod c43;
 mod c45;
@@ -44,12 +48,14 @@ pub fn run(item: &str, repo: &str, out: &str) -> Result<String, String> {
         c14::run,
         c17::run,
         c18::run,
+        c19::run,
         c20::run,
         c21::run,
         c22::run,
         c23::run,
         c24::run,
         c25::run,
+        c26::run,
         c27::run,
         c28::run,
         c29::run,
@@ -59,6 +65,8 @@ pub fn run(item: &str, repo: &str, out: &str) -> Result<String, String> {
         c33::run,
         c35::run,
         c37::run,
+        c40::run,
+        c41::run,
         c42::run,
         c43::run,
         c45::run,
